@@ -69,11 +69,12 @@ def ensure(x64: bool = True, devices: int | None = None):
     global _done
     os.environ[GUARD] = "1"
     os.environ.setdefault("JAX_PLATFORMS", "cpu")
-    flags = os.environ.get("XLA_FLAGS", "")
-    if "xla_cpu_multi_thread_eigen" not in flags:
-        flags += " --xla_cpu_multi_thread_eigen=false intra_op_parallelism_threads=1"
+    # every token of XLA_FLAGS must be a --flag: XLA stops parsing at the first token that is not
+    flags = os.environ.get("XLA_FLAGS", "").replace(" intra_op_parallelism_threads=1", "")
     if devices is not None and "xla_force_host_platform_device_count" not in flags:
-        flags += f" --xla_force_host_platform_device_count={devices}"
+        flags = f"--xla_force_host_platform_device_count={devices} " + flags
+    if "xla_cpu_multi_thread_eigen" not in flags:
+        flags += " --xla_cpu_multi_thread_eigen=false"
     os.environ["XLA_FLAGS"] = flags.strip()
     os.environ.setdefault("OMP_NUM_THREADS", "1")
     os.environ.setdefault("OPENBLAS_NUM_THREADS", "1")
